@@ -46,21 +46,9 @@ def behaviours():
 
 def prove_core():
     """spec/proofs/CatalogCore.tla: the same actions for any set of names with a TLAPS proof that NoDangling is
-    inductive (what TLC checks for three names).  Checked from scratch in a scratch copy; a failing or missing prover
-    is a tool error, never a verdict."""
-    import shutil, subprocess, tempfile, re
-    d = tempfile.mkdtemp(prefix="tlaps-", dir=os.path.join(os.path.dirname(SPEC), "work"))
-    try:
-        shutil.copy(os.path.join(SPEC, "proofs", "CatalogCore.tla"), d)
-        p = subprocess.run(["timeout", "600", "tlapm", "--cleanfp", "--threads", "4", "CatalogCore.tla"], cwd=d,
-                           stdout=subprocess.PIPE, stderr=subprocess.STDOUT, text=True)
-        m = re.search(r"All (\d+) obligations? proved", p.stdout)
-        if not m:
-            log(p.stdout[-2000:])
-            raise ToolError("TLAPS does not prove spec/proofs/CatalogCore.tla")
-        return {"module": "CatalogCore", "obligations_proved": int(m.group(1))}
-    finally:
-        shutil.rmtree(d, ignore_errors=True)
+    inductive (what TLC checks for three names)."""
+    from common import tlaps
+    return tlaps("CatalogCore")
 
 
 def catalog_part(seed, tier, v):
